@@ -75,7 +75,11 @@ func c04AimedB(r *rand.Rand, g *DocGen, a W) W {
 func c04RunSeq(c *Ctx, opt func() string) {
 	r := c.Rng
 	g := c04SeqGen()
-	for i := 0; i < c.N(700); i++ {
+	n := c.N(700)
+	if c.Thorough() {
+		n /= 2 // keeps the thorough run inside its ten minutes (the exhaustive pair scope dominates it)
+	}
+	for i := 0; i < n; i++ {
 		c.Tick()
 		a := g.Doc(r)
 		s := c04Seq{A: a, Dag: r.Intn(5) == 0, Seal: r.Intn(5) == 0}
@@ -223,7 +227,11 @@ func c04EvalSeq(c *Ctx, raw []byte) {
 			return
 		}
 		executed := 0
-		for _, e := range p.EditsA {
+		for i, e := range p.EditsA {
+			// read before every edit (through the read APIs a merge itself uses: Children, Items, Size, AsMap, Clone, Equals)
+			if !dhReport(c, "seq:", i, d.reads(dhReadOpts{Light: true})) {
+				return
+			}
 			st := d.apply(e)
 			if st == "skip" {
 				continue
